@@ -332,6 +332,23 @@ pub broadcast proof fn axiom_set_extend_vec(v: Vec<Term>)
     ensures #[trigger] vx_into_seq::<Term, Vec<Term>>(v).to_set() == v@.to_set()
 { axiom_vec_into_seq(v); }
 
+/// A2: `Vec::dedup` removes consecutive repeated elements (spec equality standing in for
+/// `PartialEq::eq`, exact for types whose `==` is structural).  Not used by the code under
+/// contract today; stated so that a change that starts to deduplicate is *decided*.
+pub open spec fn dedup_adjacent<T>(s: Seq<T>) -> Seq<T>
+    decreases s.len()
+{
+    if s.len() <= 1 { s }
+    else if s[s.len() - 2] == s.last() { dedup_adjacent(s.drop_last()) }
+    else { dedup_adjacent(s.drop_last()).push(s.last()) }
+}
+pub assume_specification<T: PartialEq, A: std::alloc::Allocator>[ Vec::<T, A>::dedup ](v: &mut Vec<T, A>)
+    ensures final(v)@ == dedup_adjacent(old(v)@);
+/// A2: `str::eq_ignore_ascii_case`: equal strings compare equal (partial: nothing is claimed
+/// for different strings)
+pub assume_specification[ str::eq_ignore_ascii_case ](a: &str, b: &str) -> (r: bool)
+    ensures a@ == b@ ==> r;
+
 /// A2: `str::parse` never panics; its value is an uninterpreted function of the text
 pub uninterp spec fn parse_spec<F>(s: Seq<char>) -> Option<F>;
 /// R20: the interval arm of set_atom_name is `new_name.parse().transform(|v| *interval = v, |_| err)`
